@@ -87,6 +87,9 @@ CLASSIFIERS = {"atol_band_residual": cls_atol_band, "cnot_lemma55_control_sign":
 
 
 def run(ctx):
+    from harness.props import sem_common
+
+    sem_common.run_semantics_suite(ctx, ctx.pick(60, 600))
     ctx.rule("kernel: decomposer x axis (26 sign patterns, near-degenerate, random) x angle grid (specials, +-1e-9..1e-3, "
              "8-digit renderings, out of range, random) x phase; loop: random circuits 1..4 qubits (8% on sparse huge "
              "indices) over all statement kinds x 8 decomposers; non-trivial = contains a gate")
